@@ -189,3 +189,25 @@ m("x3-to-native-identity", "C20", "src/endian.rs", "                $old_type::$
 m("x3-guard-len-sizeof-ptr", "C17", VM, "        PtrGuard::read(self.mmap, self.addr as *mut u8, self.len())", "        PtrGuard::read(self.mmap, self.addr as *mut u8, size_of::<usize>())", "?")
 m("x3-try-access-start-offset", "C03", GM, "            match f(total, len as usize, start, region) {", "            match f(0, len as usize, start, region) {", "?")
 m("x3-ref-load-nonvolatile-guardless", "C17", VM, "        let guard = self.ptr_guard();\n\n        // SAFETY: Safe because we checked the address and size when creating this VolatileRef.\n        // For the purposes", "        let guard = self.ptr_guard();\n        drop(guard);\n        let guard = PtrGuard::read(None, self.addr as *mut u8, self.len());\n\n        // SAFETY: Safe because we checked the address and size when creating this VolatileRef.\n        // For the purposes", "?")
+
+# ---- exploratory batch 4 ----
+m("x4-from-slice-ge", "C01", "src/bytes.rs", "        if data.len() != size_of::<Self>() {\n            return None;\n        }\n\n        // SAFETY: Safe because the ByteValued trait asserts any data is valid for this type, and\n        // we ensured the size of the pointer's buffer is the correct size. The `align_to` method\n        // ensures that we don't have any unaligned references. This aliases a pointer, but because\n        // the pointer is from a const", "        if data.len() < size_of::<Self>() {\n            return None;\n        }\n\n        // SAFETY: Safe because the ByteValued trait asserts any data is valid for this type, and\n        // we ensured the size of the pointer's buffer is the correct size. The `align_to` method\n        // ensures that we don't have any unaligned references. This aliases a pointer, but because\n        // the pointer is from a const", "?")
+m("x4-as-slice-len-plus", "C04", "src/bytes.rs", "unsafe { from_raw_parts(self as *const Self as *const u8, size_of::<Self>()) }", "unsafe { from_raw_parts(self as *const Self as *const u8, size_of::<Self>() + align_of::<Self>() - 1) }", "?")
+m("x4-as-volatile-slice-len", "C02", GM, "        self.get_slice(MemoryRegionAddress(0), self.len() as usize)", "        self.get_slice(MemoryRegionAddress(0), (self.len() as usize).next_power_of_two())", "?")
+m("x4-region-last-addr-len", "C02", GM, "        self.start_addr().unchecked_add(self.len() - 1)", "        self.start_addr().unchecked_add(self.len())", "?")
+m("x4-guest-write-obj-partial", "C03", GM, "        let res = self.write(buf, addr)?;\n        if res != buf.len() {", "        let res = self.write(buf, addr)?;\n        if res == 0 {", "?")
+m("x4-read-exact-from-count", "C03,C14", GM, "        let res = self.read_volatile_from(addr, src, count)?;\n        if res != count {", "        let res = self.read_volatile_from(addr, src, count)?;\n        if res > count {", "?")
+m("x4-guest-store-region-addr", "C03", GM, "            .and_then(|(region, region_addr)| region.store(val, region_addr, order))", "            .and_then(|(region, _region_addr)| region.store(val, MemoryRegionAddress(0), order))", "?")
+m("x4-slice-store-size", "C05,C16", VM, "            self.bitmap.mark_dirty(addr, size_of::<T>())", "            self.bitmap.mark_dirty(addr, 1)", "?")
+m("x4-copy-from-marks-buf-len", "C05,C16", VM, "        let count = copy_slice(guard.as_ptr(), src, total);\n        slice.bitmap.mark_dirty(0, count);", "        let count = copy_slice(guard.as_ptr(), src, total);\n        slice.bitmap.mark_dirty(count, 0);", "?")
+m("x4-write-volatile-to-read-guard", "C17", VM, "        let dst = slice.ptr_guard_mut();\n            copy(src.as_ptr(), dst.as_ptr(), count);", "        let dst = slice.ptr_guard_mut();\n            copy(src.as_ptr(), slice.addr, count);", "?", 0)
+m("x4-ptrguard-new-len-zero", "C17", VM, "let slice = MmapInfo::mmap(mmap, addr, prot, len);", "let slice = MmapInfo::mmap(mmap, addr, prot, len.min(4096));", "?")
+m("x4-xen-region-get-slice-mmap-none", "C17", XN, "                    self.bitmap.slice_at(offset),\n                    mmap_info,", "                    self.bitmap.slice_at(offset),\n                    None,", "?")
+m("x4-checked-add-unchecked", "C19", "src/address.rs", "                self.0.checked_add(other).map($T)", "                Some($T(self.0.wrapping_add(other)))", "?")
+m("x4-overflowing-flag-inverted", "C19", "src/address.rs", "                let (t, ovf) = self.0.overflowing_add(other);\n                ($T(t), ovf)", "                let (t, ovf) = self.0.overflowing_add(other);\n                ($T(t), !ovf)", "?")
+m("x4-eq-native-unconverted", "C20", "src/endian.rs", "                self.0 == $old_type::$to_new(*other)", "                self.0 == *other", "?")
+m("x4-grant-mmap-slice-offset0", "C17", XN, "        MmapXenSlice::new_with(self.clone(), addr as usize, prot, len)", "        MmapXenSlice::new_with(self.clone(), 0, prot, len)", "?")
+m("x4-insert-keeps-old", "C10", MM, "        let mut regions = self.regions.clone();\n        regions.push(region);", "        let mut regions = self.regions.clone();\n        regions.insert(0, region);", "?")
+m("x4-from-regions-skip-validate", "C10", MM, "        Self::from_arc_regions(regions.drain(..).map(Arc::new).collect())", "        Ok(Self { regions: regions.drain(..).map(Arc::new).collect() })", "?")
+m("x4-atomic-memory-two-loads", "C11", "src/atomic.rs", "        GuestMemoryLoadGuard { guard: self.load() }", "        let _probe = self.load();\n        GuestMemoryLoadGuard { guard: self.load() }", "?")
+m("x4-file-offset-start-ignored", "C15", UX, "(f_off.file().as_raw_fd(), f_off.start())", "(f_off.file().as_raw_fd(), 0)", "?")
